@@ -7,7 +7,7 @@
    not proved: a universal accuracy bound for converged results inside the supported range (covered only by the
    correspondence with the pinned model). Statements only. *)
 From MD.Model Require Import Base Ownable Epoch PoolMath Types PoolManager FarmManager.
-From MD.Proofs Require Import PoolMathProofs StableExact StableProofs.
+From MD.Proofs Require Import PoolMathProofs StableExact StableProofs NewtonAccuracy.
 From MD.Props Require Import Findings.
 
 Theorem C19_newton_result_meets_stopping_test : forall n f thr cur y,
@@ -25,6 +25,27 @@ Theorem C19_output_never_exceeds_reserve : forall p offer ask sc oc ac oi ai od 
   compute_swap p offer ask = Ok sc ->
   sc_return sc + sc_swap_fee sc + sc_protocol_fee sc + sc_burn_fee sc + sc_extra_fees sc <= amount_of ac.
 Proof. exact ss_output_le_reserve. Qed.
+
+(* ACCURACY OF THE y-ITERATION (the part of "tracks the invariant" that is true of the code). The swap path solves
+   y^2 + (b - D) y - c = 0 by the integer Newton step y' = floor((y^2 + c) / (2y + b - D)), stopping when two iterates differ by
+   at most one unit. Whatever it returns satisfies its quadratic up to two Newton corrections: with g(t) = t^2 + (b - D) t - c
+   and g'(t) = 2t + b - D > 0, the last iterate t (at most one unit from the returned y) has -2 g'(t) < g(t) <= g'(t).
+   So the deviation of a quote from the exact invariant comes from the coefficients - the D that stops at a whole-token
+   threshold (finding F-ss-D) and the floors in b and c -, never from this iteration. *)
+Theorem C19_y_iteration_solves_its_quadratic_within_two_newton_steps : forall p offer ask apa oa amp dir y,
+  stableswap_y p offer ask apa oa amp dir = Ok y ->
+  exists d_dec d c b t,
+    stableswap_d p (Z.of_nat (List.length (p_assets p))) amp = Ok d_dec /\
+    to_uint_with_precision d_dec (maxZ_list (p_decimals p)) = Ok d /\
+    Z.abs (y - t) <= 1 /\ 0 < 2 * t + b - d /\
+    y = (t * t + c) / (2 * t + b - d) /\
+    - 2 * (2 * t + b - d) < t * t + (b - d) * t - c <= 2 * t + b - d.
+Proof. exact stableswap_y_accuracy. Qed.
+
+Theorem C19_one_newton_step_within_a_unit_bounds_the_residual : forall t c b d den y,
+  den = 2 * t + b - d -> 0 < den -> y = (t * t + c) / den -> Z.abs (y - t) <= 1 ->
+  - 2 * den < t * t + (b - d) * t - c <= den.
+Proof. exact newton_step_residual. Qed.
 
 (* the oracle: F(X, .) is strictly increasing, so F(X, d) <= 0 means d <= D(X) exactly *)
 Theorem C19_exact_invariant_cut_is_sound : forall ann X d1 d2,
@@ -50,3 +71,5 @@ Print Assumptions C19_output_never_exceeds_reserve.
 Print Assumptions C19_exact_invariant_cut_is_sound.
 Print Assumptions C19_quote_within_two_units_refuted.
 Print Assumptions C19_deposit_D_unconverged_refuted.
+Print Assumptions C19_y_iteration_solves_its_quadratic_within_two_newton_steps.
+Print Assumptions C19_one_newton_step_within_a_unit_bounds_the_residual.
